@@ -533,6 +533,60 @@ func envelopesIn(fn *ssa.Function) []envelope {
 
 func c02(c *an.Ctx) {
 	p := c.P
+	// handleSubscribe advances `previous` for every delta it hands to writeOrClose, so a delta
+	// may only fail to reach the client if the connection is torn down (the client then
+	// resubscribes and gets a full update)
+	c.Check("R-POST", "writeOrClose: a message that could not be written closes the socket (unless the socket is already closing): no delta is dropped on a connection that stays open", 2, func(o *an.O) {
+		fn := c.NeedFunc(gq, "(*conn).writeOrClose")
+		var write ssa.Instruction
+		an.Instrs(fn, func(i ssa.Instruction) {
+			if cc := an.CallOf(i); cc != nil && cc.IsInvoke() && cc.Method.Name() == "WriteJSON" {
+				write = i
+			}
+		})
+		if write == nil {
+			o.Fail(p.Pos(fn.Pos()), "writeOrClose no longer writes to the socket")
+			return
+		}
+		o.Site(write)
+		errv := write.(ssa.Value)
+		nts := an.NilTests(fn, errv)
+		if len(nts) == 0 {
+			o.FailAt(write, "the error of socket.WriteJSON is not tested")
+			return
+		}
+		blk := an.NewBlocker()
+		nClose := 0
+		an.Instrs(fn, func(i ssa.Instruction) {
+			if cc := an.CallOf(i); cc != nil && cc.IsInvoke() && cc.Method.Name() == "Close" {
+				if _, isCall := i.(*ssa.Call); isCall {
+					blk.Instr[i] = true
+					nClose++
+					o.Site(i)
+				}
+			}
+		})
+		// the only excuse: isCloseError(err)
+		isClose := p.Func(gq, "isCloseError")
+		for _, ci := range an.CondIfs(fn, func(v ssa.Value) bool {
+			call, ok := v.(*ssa.Call)
+			return ok && isClose != nil && call.Call.StaticCallee() == isClose && len(call.Call.Args) == 1 && call.Call.Args[0] == errv
+		}) {
+			blk.AddEdge(ci.If.Block(), ci.True)
+		}
+		if nClose == 0 {
+			o.FailAt(write, "a failed write never closes the socket")
+			return
+		}
+		for _, nt := range nts {
+			r := an.Reach(fn, nt.NonNil.Instrs[0], blk)
+			for _, e := range an.Exits(fn, false) {
+				if r[e] {
+					o.FailAt(nt.If, "a message whose write failed can be dropped while the connection stays open: handleSubscribe has already advanced its previous result, so every later delta is computed against a state the client never received and the subscription never converges")
+				}
+			}
+		}
+	})
 	// "no update for an id after the server processed its unsubscribe" rests on
 	// Rerunner.Stop being a barrier for runs (shared with C04 / C08 / C17)
 	c.Check("R-LOCK+R-DOM", "no update after unsubscribe: Rerunner.Stop is a barrier (the compute call is under r.mu, after the r.stop test of the same critical section)", 3, func(o *an.O) { ruleRunUnderLock(c, o) })
